@@ -176,3 +176,69 @@ func vh_C05_error_category() {
 		vAssert(got != nil && !errors.Is(got, os.ErrNotExist) && !errors.Is(got, os.ErrPermission), "any other failure stays a failure of neither kind")
 	}
 }
+
+func vOpenChoice() (kind, fl int) {
+	kind = vChoice(3)
+	if kind != 0 {
+		return
+	}
+	fl = [3]int{os.O_RDONLY, os.O_WRONLY, os.O_RDWR}[vChoice(3)]
+	if vNondetBool() {
+		fl |= os.O_APPEND
+	}
+	if vNondetBool() {
+		fl |= os.O_CREATE
+	}
+	if vNondetBool() {
+		fl |= os.O_TRUNC
+	}
+	if vNondetBool() {
+		fl |= os.O_EXCL
+	}
+	if vNondetBool() {
+		fl |= os.O_SYNC // not representable in protocol version 3
+	}
+	return
+}
+
+// Client.OpenFile -> wire -> real OPEN handler -> os.OpenFile: the flag word
+// package os is given is the caller's (access mode, CREATE, TRUNC, EXCL), with
+// O_APPEND left out (documented: the offset is kept by the client); Open and
+// Create are OpenFile(O_RDONLY) and OpenFile(O_RDWR|O_CREATE|O_TRUNC).
+//
+//verif:samples 30
+func vh_C05_open_roundtrip() {
+	vErrKinds = 0
+	vEnvReset()
+	vLoopRequests = 0
+	svr := vNewServer(false, "")
+	vPeer = vServerPeer(svr)
+	c := vPeerClient()
+	defer vPeerDone(c)
+	kind, fl := vOpenChoice()
+	var f *File
+	var err error
+	var want int
+	switch kind {
+	case 0:
+		want = fl &^ (os.O_APPEND | os.O_SYNC)
+		f, err = c.OpenFile("/f", fl)
+	case 1:
+		want = os.O_RDONLY
+		f, err = c.Open("/f")
+	case 2:
+		want = os.O_RDWR | os.O_CREATE | os.O_TRUNC
+		f, err = c.Create("/f")
+	}
+	vAssert(err == nil && f != nil, "the open succeeds")
+	n := 0
+	for _, g := range vEnvLog {
+		if g.Op == "OpenFile" {
+			n++
+			vAssert(g.P1 == "/f" && g.Flag == want, "package os is given the caller's flags (without O_APPEND)")
+			vAssert(g.Mode == 0o644, "default permissions")
+		}
+	}
+	vAssert(n == 1, "exactly one os.OpenFile")
+	vAssert(vLoopRequests == 1, "one request")
+}
